@@ -9,17 +9,21 @@ Open Scope string_scope.
 
 Definition digit_char (d : N) : ascii :=
   ascii_of_N (if (d <? 10)%N then (48 + d)%N else (55 + d)%N).      (* '0'.. / 'A'.. *)
+Definition digit_char_l (d : N) : ascii :=
+  ascii_of_N (if (d <? 10)%N then (48 + d)%N else (87 + d)%N).      (* '0'.. / 'a'.. *)
 
-(* most significant digit first; fuel = maximal number of digits *)
-Fixpoint digits (base : N) (fuel : nat) (n : N) (acc : string) : string :=
+(* most significant digit first; fuel = maximal number of digits; dc renders one digit *)
+Fixpoint digits (dc : N -> ascii) (base : N) (fuel : nat) (n : N) (acc : string) : string :=
   match fuel with
   | O => acc
-  | S f => let acc' := String (digit_char (n mod base)%N) acc in
-           if (n / base =? 0)%N then acc' else digits base f (n / base)%N acc'
+  | S f => let acc' := String (dc (n mod base)%N) acc in
+           if (n / base =? 0)%N then acc' else digits dc base f (n / base)%N acc'
   end.
-Definition dec (n : N) : string := digits 10 20 n "".       (* u64: at most 20 digits *)
-Definition hexu (n : N) : string := digits 16 16 n "".      (* u64: at most 16 digits *)
+Definition dec (n : N) : string := digits digit_char 10 20 n "".       (* u64: at most 20 digits *)
+Definition hexu (n : N) : string := digits digit_char 16 16 n "".      (* {:X} *)
+Definition hexl (n : N) : string := digits digit_char_l 16 16 n "".    (* {:x} *)
 Definition hex0x (n : N) : string := "0x" ++ hexu n.
+Definition hex0xl (n : N) : string := "0x" ++ hexl n.                  (* {:#x} *)
 
 Definition perr_display (e : perr) : option string :=
   match e with
@@ -45,6 +49,6 @@ Definition perr_has_source (e : perr) : bool :=
 
 (* reading a rendered number back (for the round-trip theorem) *)
 Definition digit_val (c : ascii) : N :=
-  let n := N_of_ascii c in if (n <? 58)%N then (n - 48)%N else (n - 55)%N.
+  let n := N_of_ascii c in if (n <? 58)%N then (n - 48)%N else if (n <? 97)%N then (n - 55)%N else (n - 87)%N.
 Fixpoint value_of (base : N) (s : string) (acc : N) : N :=
   match s with EmptyString => acc | String c t => value_of base t (acc * base + digit_val c)%N end.
